@@ -19,7 +19,7 @@ Init == r \in 1..Len(Runs) /\ l = 1 /\ tree = Nil /\ bad = "no" /\ rem = {}
 
 \* nested JSON arrays [k,v,l,r] / [] are exactly the model's trees
 Ev == Runs[r].events[l]
-MapOps == {"insert", "remove", "get", "find", "contains", "next", "prev", "min", "max", "len", "clear"}
+MapOps == {"insert", "remove", "get", "find", "contains", "next", "prev", "min", "max", "len", "clear", "is_empty", "get_mut", "index", "index_mut"}
 
 RECURSIVE InsertAll(_, _)
 InsertAll(m, items) == IF items = <<>> THEN m ELSE InsertAll(Upd(m, items[1][1], items[1][2]), Tail(items))
